@@ -301,13 +301,38 @@ def run(ctx):
     # the pair routine
     pair = mod.func('BondMaker._find_bonds_for_atoms')
     mk_calls = [c for c in calls_in(pair) if last_attr(c) == 'make_bond']
+    pair_params = [a.arg for a in pair.args.args if a.arg != 'self']
+
+    def fact_kind(expr, positive):
+        """Classify one dominating fact of the pair routine."""
+        if isinstance(expr, ast.Call) and last_attr(expr) == 'check_distance' and \
+                sorted(norm(a) for a in expr.args) == sorted(pair_params):
+            return 'criterion' if positive else 'not-criterion'
+        if isinstance(expr, ast.Compare) and len(expr.ops) == 1:
+            op, lhs, rhs = expr.ops[0], expr.left, expr.comparators[0]
+            if isinstance(op, (ast.IsNot, ast.NotEq)) and positive and \
+                    sorted([norm(lhs), norm(rhs)]) == sorted(pair_params):
+                return 'irreflexive'
+            if isinstance(op, ast.In) and not positive and isinstance(rhs, ast.Attribute) \
+                    and rhs.attr == 'bonded_atoms' and \
+                    sorted([norm(lhs), norm(rhs.value)]) == sorted(pair_params):
+                return 'not-yet-bonded'
+            if isinstance(op, ast.Eq) and positive and isinstance(lhs, ast.Attribute) \
+                    and lhs.attr == 'element' and norm(lhs.value) in pair_params \
+                    and isinstance(rhs, ast.Constant) and rhs.value == 'S':
+                return 'sulfur:' + norm(lhs.value)
+        return 'other:%s%s' % ('' if positive else 'not ', norm(expr))
+
     ok_pair = False
+    kinds = []
     if len(mk_calls) == 1:
-        facts = fact_texts(mk_calls[0], pair)
-        ok_pair = any(p and 'check_distance' in t for t, p in facts) and \
-            all(not ('check_distance' in t and not p) for t, p in facts)
+        kinds = sorted(fact_kind(e, p) for e, p in facts_at(mk_calls[0], pair))
+        ok_pair = 'criterion' in kinds and \
+            set(kinds) <= {'criterion', 'irreflexive', 'not-yet-bonded'}
     ctx.ob('C11.R4', 'pair:bond-iff-criterion', ok_pair,
-           'a bond is made exactly under the positive pair criterion', mod,
+           'a bond is made exactly under the positive pair criterion: the call of make_bond is '
+           'dominated by the criterion and by nothing else that depends on the pair '
+           '(dominating facts: %s)' % kinds, mod,
            mk_calls[0] if mk_calls else pair)
     # the skip-if-already-bonded shortcut may only return
     for node in walk_no_nested(pair):
@@ -347,16 +372,13 @@ def run(ctx):
            mod, true_stores[0][3] if true_stores else pair)
     if true_stores:
         blocks = {id(s[3]._parent) for s in true_stores}
-        facts = fact_texts(true_stores[0][3], pair)
-        pos = [t for t, p in facts if p]
-        need_elem = all(any((v + ".element == 'S'") in t for t in pos) for v in pparams)
-        need_dist = any('check_distance' in t for t in pos)
+        kinds5 = sorted(fact_kind(e, p) for e, p in facts_at(true_stores[0][3], pair))
+        want = {'criterion'} | {'sulfur:' + v for v in pparams}
         ctx.ob('C11.R5', 'bridge:condition',
-               len(blocks) == 1 and need_elem and need_dist and
-               not any(not p for t, p in facts if 'element' in t),
-               'the flags are set in one block, under the pair criterion and both '
-               'elements being sulfur', mod, true_stores[0][3],
-               detail='; '.join(pos))
+               len(blocks) == 1 and want <= set(kinds5) and
+               set(kinds5) <= want | {'irreflexive', 'not-yet-bonded'},
+               'the flags are set in one block, under exactly the pair criterion and both '
+               'elements being sulfur (dominating facts: %s)' % kinds5, mod, true_stores[0][3])
     ctx.need('C11.R5', 3)
     # consequence for titration (shared with C01.R5)
     common.check_bridge_not_titrated(ctx, 'C11.R5', prog)
